@@ -1,9 +1,9 @@
 #!/usr/bin/env bash
-# sweep_preserving_subset.sh <glob> — like sweep_preserving.sh for preserving/<glob>
+# sweep_preserving_subset.sh <glob> — like sweep_preserving.sh for preserving/<glob>; PROPS='C12 C14' limits the checks run
 here="$(dirname "$(readlink -f "$0")")"
 export VERIF_SHRINK_TIME="${VERIF_SHRINK_TIME:-5s}"
 for d in "$here"/../preserving/$1; do id=$(basename $d); [ -f $d/patch.diff ] || continue
-  for prop in C03 C04 C10 C11 C12 C13 C14 C19 C20; do
+  for prop in ${PROPS:-C03 C04 C10 C11 C12 C13 C14 C19 C20}; do
     out=$(MUT_LINES=4 MUT_COLS=300 "$here/run_mutant.sh" $d/patch.diff $prop quick 2>&1 | grep -v WARNING)
     rc=$(echo "$out" | grep -o 'rc=[0-9]*' | tail -1); cls=$(echo "$out" | grep -m1 'class:\|INFRA\|UNSUPP\|PATCH' | sed 's/^ *class: //')
     echo "$id $prop $rc ${cls:-held}"
